@@ -140,6 +140,9 @@ class Sym(object):
                 ch = self.child_of(e.func.value, env)
                 if ch and nm in KIND_OF_CALL and not e.args:
                     return T_atom(KIND_OF_CALL[nm], ch)
+                if ch and nm == "replace":
+                    # the replacement stands for the same child (same remaining entries)
+                    return ("childref", ch)
                 if norm.canon(e.func.value) == "self" and nm in MONOTONE_HELPERS and e.args:
                     return ("apply", nm, self.ev(e.args[0], env), ", ".join(norm.canon(a, self.al) for a in e.args[1:]))
                 if norm.canon(e.func.value) == "self" and nm in KIND_OF_CALL and not e.args:
@@ -232,6 +235,8 @@ def paths(func, max_paths=400):
             v = sym.ev(a.value, env)
             if isinstance(a.op, ast.Add):
                 env[a.target.id] = T_sum([cur, v])
+            elif isinstance(a.op, ast.Mult) and v[0] == "const" and cur[0] not in ("const", "unknown", "thr"):
+                env[a.target.id] = ("scale", v[1], cur)
             else:
                 env[a.target.id] = ("unknown", norm.stmt_text(a))
         return env
